@@ -98,6 +98,10 @@ func GenFedInput(c *Ctx, i int, forC string) (FedInput, map[string]bool) {
 		if r.Intn(5) == 0 {
 			p = append([]string{"nowhere"}, p...)
 		}
+		if len(p) >= 2 && r.Intn(4) == 0 {
+			// a list naming a service twice (the first occurrence decides): append([]string{preferred}, all...)
+			p = append(p, p[0])
+		}
 		if r.Intn(6) == 0 {
 			// a non-empty list that offers nothing: the built-in preferences (enclosing service, gateway) decide
 			p = []string{"nowhere"}
@@ -177,6 +181,11 @@ func (c01) Run(c *Ctx, i int) CaseResult {
 		}
 		res.Fails = append(res.Fails, Failure{Channel: "L0.mono", Classifier: cl, What: what, Input: fin, Expected: ffc.Want,
 			Observed: map[string]interface{}{"data": ffc.Out.Data, "error": ErrString(ffc.Out.Err), "plan": PlanText(ffc.Out.Plans), "original_query": in.Query}})
+	}
+	if len(res.Fails) == 0 && i%8 == 0 {
+		// the same transparency when the plan is not made for this request but reused (plan cache, kept plan list)
+		ts := reuseTemplatesFor("node-variable-id", "optional-variable-dependent-step", "optional-variable-on-gateway-field")
+		res.Fails = append(res.Fails, ReuseCheck(c, c.Rand(i+85000000), ts[(i/8)%len(ts)], "L0.mono-reuse")...)
 	}
 	if i%97 == 0 || i < 2 {
 		res.Sample = map[string]interface{}{"query": in.Query, "services": in.Spec.Order, "priorities": in.Spec.Priorities, "vars": in.Vars, "calls": fc.Fed.TotalCalls()}
